@@ -218,8 +218,9 @@ __tzob_zif(echs_tzob_t zob)
 }
 
 
-#define DAISY_UNIX_BASE	(7977U)
-#define DAISY_BASE_YEAR	(1948U)
+/* day 0 is 1900-03-00, years run from March to February */
+#define DAISY_UNIX_BASE	(25509)
+#define DAISY_BASE_YEAR	(1900U)
 
 static time_t
 __inst_to_epoch(echs_instant_t i)
@@ -230,7 +231,8 @@ __inst_to_epoch(echs_instant_t i)
 		306U, 337U, 0U, 31U, 61U, 92U,
 		122U, 153U, 184U, 214U, 245U, 275U
 	};
-	unsigned int by = i.y - DAISY_BASE_YEAR;
+	/* Jan and Feb belong to the year that began the March before */
+	unsigned int by = i.y - DAISY_BASE_YEAR - (i.m < 3U);
 	/* no bullshit years in our lifetime */
 	unsigned int j0 = by * 365U + by / 4U;
 	/* yday by lookup */
@@ -238,15 +240,16 @@ __inst_to_epoch(echs_instant_t i)
 		? __mon_yday[i.m] + i.d
 		: 0U;
 
-	return ((((j0 + yd - DAISY_UNIX_BASE) * 24U +
-		  (LIKELY(i.H <= 24U) ? i.H : 24U)) * 60U + i.M) * 60U) + i.S;
+	return (((((time_t)(j0 + yd) - DAISY_UNIX_BASE) * 24 +
+		  (LIKELY(i.H <= 24U) ? i.H : 24U)) * 60 + i.M) * 60) + i.S;
 }
 
 static echs_instant_t
 __epoch_to_inst(time_t t)
 {
-	unsigned int d = t / 86400U + DAISY_UNIX_BASE;
-	unsigned int s = t % 86400U;
+	/* round towards the past, T may be before 1970 */
+	unsigned int d = (t - (t % 86400 < 0 ? 86399 : 0)) / 86400 + DAISY_UNIX_BASE;
+	unsigned int s = (t % 86400 + 86400) % 86400;
 	echs_instant_t ti;
 
 	/* now here's the deal:
